@@ -272,7 +272,7 @@ def json_oracle(it, uv):
         elif jv == jv and abs(jv) != float('inf'):
             cmp.append((f'json:{cls}:{label}', what, toks[0].replace(',', ''), jv))
         if len(toks) >= 2 and ' '.join(toks[1:]) not in uv.get(p.get('CurrentUnits'), set()) | uv.get(p.get('PreferredUnits'), set()):
-            out.append((f'json:unit:{label}', f'the .json entry "{p.get("Name")}" has another unit than the report line "{label}"',
+            out.append((f'json:{"addons" if cls == "addons" else "unit"}:{label}', f'the .json entry "{p.get("Name")}" has another unit than the report line "{label}"',
                         ' '.join(toks[1:]), [p.get('CurrentUnits'), p.get('PreferredUnits')]))
     return out, cmp
 
@@ -306,7 +306,10 @@ def kernel_codes(ctx, name, terms):
         if rc != 0:
             raise RuntimeError(f'coqc failed on {p.name}: {(o + e)[-800:]}')
         m = re.search(r'=\s*\[(.*?)\]\s*:', ' '.join(o.split()))
-        return [int(x) for x in re.findall(r'\d+', m.group(1).replace('%nat', ''))] if m else [-1]
+        if not m:
+            ctx.note(f'unparsable kernel output for {p.name}: {o[-300:]!r}')
+            return [-1]
+        return [int(x) for x in re.findall(r'\d+', m.group(1).replace('%nat', ''))]
 
     with ThreadPoolExecutor(max_workers=16) as ex:
         return list(ex.map(one, enumerate(terms)))
@@ -385,7 +388,7 @@ def correspondence(ctx, proofs_ok=True):
     ctx.count('model-vs-client', evaluations=len(sel) * (len(fields) + 8), reports=len(sel))
     for i in failing:
         it = items[i]
-        for c in codes.get(i, [-1]):
+        for c in codes.get(i, []):      # details are evaluated for the first 24 failing reports only
             if c >= 5000:
                 name = fields[c - 5000][1]
                 ctx.violate('property', f'ambiguous:{name}', f'the model finds several distinct matching lines for "{name}" that parse differently: '
